@@ -171,7 +171,40 @@ def time_rows(rep):
                         "cases": n, "distinct_nontrivial": n})
 
 
+def bool_constructs(rep, known):
+    """`has()`, `in`, the string predicates and the boolean macros yield the CEL bool type - through both runners (finite
+    table of constructs x representative operands; the class of the result does not depend on the payload)."""
+    import celpy
+    listed = {k["id"]: k for k in (known or [])}
+    act = {"m": ct.MapType({ct.StringType("k"): ct.IntType(1)}), "l": ct.ListType([ct.IntType(1), ct.IntType(2)]), "s": ct.StringType("abc")}
+    exprs = ["has(m.k)", "has(m.z)", "1 in l", "3 in l", '"k" in m', "l.all(x, x > 0)", "l.exists(x, x > 1)", "l.exists_one(x, x > 1)", 's.contains("b")', 's.startsWith("a")',
+             's.endsWith("z")', 's.matches("a.c")', "!has(m.z)", "has(m.k) && true", "has(m.k) || has(m.z)", "has(m.k) ? 1 : 2", "[has(m.k)]", "type(has(m.k)) == bool"]
+    envs = {}
+    for rn, runner in (("interpreted", celpy.InterpretedRunner), ("compiled", celpy.CompiledRunner)):
+        celpy.CELParser.CEL_PARSER = None
+        envs[rn] = celpy.Environment(runner_class=runner)
+    for rn, env in envs.items():
+        for text in exprs:
+            try:
+                v = env.program(env.compile(text)).evaluate(dict(act))
+                if isinstance(v, list):
+                    v = v[0]
+                want = ct.IntType if "?" in text else ct.BoolType
+                ok, obs = type(v) is want, f"{type(v).__name__} {v!r}"
+                if text.startswith("type("):
+                    ok = ok and bool(v)
+            except Exception as ex:
+                ok, obs = False, f"{type(ex).__name__}: {str(ex)[:80]}"
+            o = V.table_obl(rep, f"bool-construct[{rn}:{text}]", f"celpy.{'InterpretedRunner' if rn == 'interpreted' else 'CompiledRunner'}",
+                            "a relation / has() / in / string predicate / boolean macro yields celtypes.BoolType", ok, f"input: {text!r} -> {obs}", kind="B")
+            if not ok:
+                o.replay = {"replayed": True, "confirmed": True, "inputs": {"text": text, "runner": rn}, "observed": obs}
+                if "has(" in text and rn == "compiled" and "C13-has-python-bool" in listed:
+                    o.finding_id = "C13-has-python-bool"
+
+
 def build(rep, tier="quick", seed=0, known=None):
+    bool_constructs(rep, known)
     from contracts import c13_rules
     cs = contracts() + c13_rules.contracts()
     run_contracts(cs, rep, known=known)
